@@ -220,6 +220,51 @@ def available_pieces(cx, loaded=None):
     return out
 
 
+def determined(cx):
+    """True when the available data determines the outcome of every piece whatever the schedule or
+    presentation: every piece that could POSSIBLY be assembled (from any same-length file in any
+    state it can pass through during the run - its initial bytes, zeros of an extension, or the
+    bytes of any same-length torrent file an export write may put there) is STABLY available.
+    Over-approximates 'possibly', so it errs on the side of not demanding identical trees."""
+    snap = state_after_prelude(cx)
+    stable = set((t.hex, pc[0]) for t, pc in available_pieces(cx))
+    by_len = {}
+    for rel, what in snap.items():
+        if what[0] == "file":
+            by_len.setdefault(len(what[1]), []).append(what[1])
+    tgt_by_len = {}
+    for rel, (t, f) in cx.targets.items():
+        tgt_by_len.setdefault(f.length, []).append(f.content)
+    for t in cx.torrents:
+        for pc in t.pieces():
+            if (t.hex, pc[0]) in stable:
+                continue
+            possible = True
+            for k, off, ln in pc[1]:
+                f = t.files[k]
+                if f.pad or ln == 0:
+                    continue
+                need = f.content[off:off + ln]
+                writes = tgt_by_len.get(f.length, [])
+                # any existing file may be (a hard link of) an export file that is extended and written during the run
+                cands = list(by_len.get(f.length, [])) + [b""]
+                for rel, what in snap.items():
+                    if what[0] == "file" and len(what[1]) < f.length:
+                        cands.append(what[1])
+                ok = False
+                for data in cands:
+                    if all((off + i < len(data) and data[off + i] == need[i]) or (off + i >= len(data) and need[i] == 0)
+                           or any(c[off + i] == need[i] for c in writes) for i in range(ln)):
+                        ok = True
+                        break
+                if not ok:
+                    possible = False
+                    break
+            if possible:
+                return False
+    return True
+
+
 def c02(cx):
     """Every available piece is recovered (fault-free completed runs)."""
     if cx.rr.result != "ok":
